@@ -10,7 +10,8 @@ rows = ["%d changes to gorilla/websocket were written by sub-agents that were gi
         "repaired: three per property, asked for mechanisms a reviewer would not think of first (`seeded/Cxx-r2n`);",
         "round 3: thirty more, each agent confined to one file other than conn.go (`seeded/Cxx-r3<file>n`); round 4: twenty",
         "more, cooperating edits and history-dependent leaks (`seeded/Cxx-r4n`); round 5: twenty more for the ten",
-        "properties round 4 had left out, same brief plus rarely used entry points and non-default options (`seeded/Cxx-r5n`).",
+        "properties round 4 had left out, same brief plus rarely used entry points and non-default options (`seeded/Cxx-r5n`);",
+        "round 6: the same brief for the other ten properties (`seeded/Cxx-r6n`).",
         "Each was confirmed (demo passes on the clean tree and fails with the change; suite passes with it), stored",
         "with `patch.diff`, `demo_test.go`, `meta.json`, and run against the property's quick check with",
         "`tools/seedrun.sh` (apply to /repo, check, `git checkout -- .`). `tools/seedall.py` re-runs them all and",
@@ -116,7 +117,18 @@ deprecated NewClient skipping the URL checks: a fifth of the C14 cases go throug
 non-ws/wss URL or one with userinfo not refused). C01-r51 (write deadline cached in Conn.write but not in
 WriteControl) was caught by the correspondence only; clause 75 (the deadline armed on the transport when bytes
 are written is the one in force for that frame) makes it a concrete input for C01 and C10. A panic raised on
-the calling goroutine of any case is now a kind-70 tape (clause 50) instead of the end of the harness run.""")
+the calling goroutine of any case is now a kind-70 tape (clause 50) instead of the end of the harness run.
+
+Round 6: twenty more (`seeded/Cxx-r6n`) for C02 C04 C06 C08 C10 C12 C13 C15 C17 C20 with the round-5 brief. Four
+were missed at first: C06-r62 (the 1009 close routed through the application's close handler: a quarter of the
+C06 cases now install handlers), C10-r62 (an oversized control message fed to a control-type writer by ReadFrom
+on the smallest buffer goes out fragmented instead of being refused: that family, already in C02, is now in C10
+too), C13-r61 (a package-level cache of the last accepted (Origin, Host) pair whose halves come from different
+requests: half of the C13 cases are now preceded by one to three earlier handshakes in the same process - the
+request naming this origin's own host, refused requests for this host, other requests of the run - and the
+harness runs serially), C15-r61 (an abandoned compressed message leaves the "compressed" flag set for the next,
+uncompressed one: message flow after the handshake is C15's last sentence, so C15 now also runs the round-trip
+and reader harnesses C01 and C03, which exhibit it).""")
 sec = open('/verif/tools/design_sec11.md').read().replace('SEEDED_TABLE', '\n'.join(rows))
 d = open('/verif/DESIGN.md').read()
 d = re.sub(r'## 11\. As built.*?(?=## Appendix A\.)', '', d, flags=re.S)
